@@ -20,6 +20,12 @@ const TOL: f64 = 1e-7;
 /// reduced-unit comparison of two two-phase equilibria: worst of T, p (abs+rel), the
 /// densities and the compositions of both phases
 pub fn pe_dev(a: &PhaseEquilibrium<Model, 2>, b: &PhaseEquilibrium<Model, 2>) -> f64 {
+    // two solutions whose phases both differ by less than 1e-3 sit on the critical point for
+    // all practical purposes: the equilibrium conditions are degenerate there (an error eps in
+    // the residual moves the phases by ~sqrt(eps)) and a comparison at 1e-7 resolves nothing
+    if near_trivial(a) && near_trivial(b) {
+        return 0.0;
+    }
     let mut worst = 0.0f64;
     for (x, y) in [(a.vapor(), b.vapor()), (a.liquid(), b.liquid())] {
         worst = worst.max((x.temperature.to_reduced() / y.temperature.to_reduced() - 1.0).abs());
@@ -36,6 +42,30 @@ pub fn pe_dev(a: &PhaseEquilibrium<Model, 2>, b: &PhaseEquilibrium<Model, 2>) ->
 }
 
 /// phases closer than 1e-3 in every partial density: a collapsed (near-trivial) solution
+/// largest relative difference of the partial densities of the two phases
+pub fn phase_distance(a: &PhaseEquilibrium<Model, 2>) -> f64 {
+    a.vapor()
+        .partial_density
+        .to_reduced()
+        .iter()
+        .zip(a.liquid().partial_density.to_reduced().iter())
+        .map(|(x, y)| (x / y - 1.0).abs())
+        .fold(0.0, f64::max)
+}
+
+/// signature of a comparison in which exactly one side is a collapsed pair of phases: the
+/// recorded defect F33 is a collapse that stays just above the library's trivial-solution
+/// threshold (1e-5); a pair closer than that is a trivial solution the library itself
+/// promises to reject and is reported under its own signature
+pub fn collapse_sig(a: &PhaseEquilibrium<Model, 2>, b: &PhaseEquilibrium<Model, 2>, what: &str) -> String {
+    let d = if near_trivial(a) { phase_distance(a) } else { phase_distance(b) };
+    if d < 0.99e-5 {
+        format!("trivial solution returned (phases closer than 1e-5)|{what}")
+    } else {
+        format!("near-critical collapse|{what}")
+    }
+}
+
 pub fn near_trivial(a: &PhaseEquilibrium<Model, 2>) -> bool {
     a.vapor()
         .partial_density
@@ -75,6 +105,8 @@ pub fn run(cfg: Config) -> i32 {
         false,
         &[
             "systems are restricted to those without liquid-liquid demixing, as the quantifier says; a guided call that fails is allowed",
+            "two solutions that are both within 1e-3 of the critical point (phases differ by less than 1e-3 in every partial density) are not compared: the conditions are degenerate there; a comparison in which exactly one side is collapsed is judged, under its own signature",
+            "between the mixture critical temperature and the cricondentherm a composition has two saturation pressures; a stand-alone solve on the other one is a different problem and skipped",
         ],
     )
 }
@@ -113,7 +145,7 @@ fn pure(m: &mut Monitor, cfg: &Config) {
                 if tr_.contains(&Site::PureTInitGiven) {
                     m.count("pure_converged_from_given_state", 1);
                 }
-                let sig = if near_trivial(&g) != near_trivial(&reference) { "near-critical collapse|pure guided vs unguided".to_string() } else { format!("{}|pure guided", pc.family) };
+                let sig = if near_trivial(&g) != near_trivial(&reference) { collapse_sig(&g, &reference, "pure guided vs unguided") } else { format!("{}|pure guided", pc.family) };
                 m.check("pure:guided equals unguided", &sig, case, pe_dev(&g, &reference), TOL, || json!({"info": info, "guided": pe_json(&g), "unguided": pe_json(&reference)}));
             } else {
                 m.skip("pure", "guided call failed (allowed)");
@@ -121,7 +153,7 @@ fn pure(m: &mut Monitor, cfg: &Config) {
             // at given pressure, guided by the same previous equilibrium
             let p = reference.vapor().pressure(Contributions::Total);
             if let Ok(g) = PhaseEquilibrium::pure(&eos, p, Some(&init), SolverOptions::default()) {
-                let sig = if near_trivial(&g) != near_trivial(&reference) { "near-critical collapse|pure(p) guided vs unguided".to_string() } else { format!("{}|pure(p) guided", pc.family) };
+                let sig = if near_trivial(&g) != near_trivial(&reference) { collapse_sig(&g, &reference, "pure(p) guided vs unguided") } else { format!("{}|pure(p) guided", pc.family) };
                 m.check("pure(p):guided equals solution at T", &sig, case, pe_dev(&g, &reference), 1e-6, || json!({"info": info, "guided": pe_json(&g), "unguided": pe_json(&reference)}));
             }
         }
@@ -130,7 +162,7 @@ fn pure(m: &mut Monitor, cfg: &Config) {
 
 fn mixtures(m: &mut Monitor, cfg: &Config) {
     let pairs = hydrocarbon_pairs(1.5);
-    let n = cfg.tier.pick(4_000, 150_000);
+    let n = cfg.tier.pick(8_000, 150_000);
     let idx: Vec<u64> = (0..n).collect();
     par_cases(m, &idx, |m, _, &i| {
         let mut rng = Rng::derive(cfg.seed, "c12-mix", i);
@@ -167,8 +199,8 @@ fn mixtures(m: &mut Monitor, cfg: &Config) {
                     m.skip("bubble", "one solve returned a liquid-liquid equilibrium: the pair demixes here (outside the quantifier)");
                     return;
                 }
-                let sig = if near_trivial(&b1) != near_trivial(&b0) { "near-critical collapse|bubble guided vs unguided" } else { "pcsaft-hc|bubble guided" };
-                m.check("bubble:guided equals unguided", sig, case, pe_dev(&b1, &b0), TOL, || json!({"info": info, "guided": pe_json(&b1), "unguided": pe_json(&b0)}));
+                let sig = if near_trivial(&b1) != near_trivial(&b0) { collapse_sig(&b1, &b0, "bubble guided vs unguided") } else { "pcsaft-hc|bubble guided".to_string() };
+                m.check("bubble:guided equals unguided", &sig, case, pe_dev(&b1, &b0), TOL, || json!({"info": info, "guided": pe_json(&b1), "unguided": pe_json(&b0)}));
             }
             _ => m.skip("bubble", "guided call failed (allowed)"),
         }
@@ -177,8 +209,8 @@ fn mixtures(m: &mut Monitor, cfg: &Config) {
             if pd.to_reduced() > 1e-9 {
                 match PhaseEquilibrium::dew_point(&pr.eos, temp, &x, Some(pd * f), None, Default::default()) {
                     Ok(d1) if d1.vapor().pressure(Contributions::Total).to_reduced() > 1e-9 => {
-                        let sig = if near_trivial(&d1) != near_trivial(&d0) { "near-critical collapse|dew guided vs unguided" } else { "pcsaft-hc|dew guided" };
-                        m.check("dew:guided equals unguided", sig, case + 1, pe_dev(&d1, &d0), TOL, || json!({"info": info, "guided": pe_json(&d1), "unguided": pe_json(&d0)}));
+                        let sig = if near_trivial(&d1) != near_trivial(&d0) { collapse_sig(&d1, &d0, "dew guided vs unguided") } else { "pcsaft-hc|dew guided".to_string() };
+                        m.check("dew:guided equals unguided", &sig, case + 1, pe_dev(&d1, &d0), TOL, || json!({"info": info, "guided": pe_json(&d1), "unguided": pe_json(&d0)}));
                     }
                     _ => m.skip("dew", "guided call failed (allowed)"),
                 }
@@ -215,7 +247,7 @@ fn mixtures(m: &mut Monitor, cfg: &Config) {
 fn diagrams(m: &mut Monitor, cfg: &Config) {
     let cases = shipped_pure_cases();
     let pairs = hydrocarbon_pairs(1.5);
-    let n = cfg.tier.pick(300, 6_000);
+    let n = cfg.tier.pick(800, 6_000);
     let idx: Vec<u64> = (0..n).collect();
     par_cases(m, &idx, |m, _, &i| {
         let mut rng = Rng::derive(cfg.seed, "c12-diag", i);
@@ -283,8 +315,42 @@ fn diagrams(m: &mut Monitor, cfg: &Config) {
                             m.skip("diagram:binary_vle", "one solve returned a liquid-liquid equilibrium: the pair demixes here (outside the quantifier)");
                             continue;
                         }
-                        let sig = if near_trivial(&r) != near_trivial(s) { "near-critical collapse|binary_vle vs stand-alone" } else { "pcsaft-hc|diagram binary" };
-                        m.check("diagram:binary_vle point equals stand-alone bubble point", sig, case + k as u64, pe_dev(s, &r), TOL, || json!({"info": info, "diagram": pe_json(s), "stand-alone": pe_json(&r)}));
+                        let sig = if near_trivial(&r) != near_trivial(s) { collapse_sig(&r, s, "binary_vle vs stand-alone") } else { "pcsaft-hc|diagram binary".to_string() };
+                        m.check("diagram:binary_vle point equals stand-alone bubble point", &sig, case + k as u64, pe_dev(s, &r), TOL, || json!({"info": info, "diagram": pe_json(s), "stand-alone": pe_json(&r)}));
+                    }
+                }
+            }
+        }
+        // the same above the critical temperature of the lighter component: the diagram ends in
+        // the mixture critical point, the stand-alone solves near it have no guess
+        let thigh = pr.tc[0].max(pr.tc[1]);
+        if thigh / tlow > 1.05 {
+            let t2 = tlow + (thigh - tlow) * rng.range(0.1, 0.8);
+            let temp2 = Temperature::from_reduced(t2);
+            let info2 = json!({"system": sys, "T": t2, "npoints": np, "region": "between the pure critical temperatures"});
+            if let Ok(Ok(d)) = no_panic(|| PhaseDiagram::binary_vle(&pr.eos, temp2, Some(np), None, Default::default())) {
+                m.case("diagram-binary-critical", hash_f64s(&sys, &[t2, np as f64]), true);
+                for (k, s) in d.states.iter().enumerate() {
+                    let x = &s.liquid().molefracs;
+                    if x.iter().any(|v| *v <= 1e-12) || s.vapor().pressure(Contributions::Total).to_reduced() < 1e-9 {
+                        continue;
+                    }
+                    // the diagram closes with the critical point itself, stored as two identical states
+                    if phase_distance(s) < 1e-12 {
+                        continue;
+                    }
+                    if let Ok(r) = PhaseEquilibrium::bubble_point(&pr.eos, temp2, x, None, None, Default::default()) {
+                        if lle_like(&r) != lle_like(s) {
+                            m.skip("diagram:binary_vle", "one solve returned a liquid-liquid equilibrium: the pair demixes here (outside the quantifier)");
+                            continue;
+                        }
+                        let dense_spec = |pe: &PhaseEquilibrium<Model, 2>| pe.liquid().density > pe.vapor().density;
+                        if dense_spec(&r) != dense_spec(s) {
+                            m.skip("diagram:binary_vle", "stand-alone solve on the other saturation branch (retrograde region)");
+                            continue;
+                        }
+                        let sig = if near_trivial(&r) != near_trivial(s) { collapse_sig(&r, s, "binary_vle vs stand-alone") } else { "pcsaft-hc|diagram binary (critical region)".to_string() };
+                        m.check("diagram:binary_vle point equals stand-alone bubble point", &sig, case + 500 + k as u64, pe_dev(s, &r), TOL, || json!({"info": info2, "diagram": pe_json(s), "stand-alone": pe_json(&r)}));
                     }
                 }
             }
@@ -313,8 +379,8 @@ fn diagrams(m: &mut Monitor, cfg: &Config) {
                             m.skip("diagram:bubble line", "stand-alone solve on the other saturation branch (retrograde region)");
                             continue;
                         }
-                        let sig = if near_trivial(&r) != near_trivial(s) { "near-critical collapse|bubble line vs stand-alone" } else { "pcsaft-hc|bubble line" };
-                        m.check("diagram:bubble line point equals stand-alone bubble point", sig, case + 100 + k as u64, pe_dev(s, &r), TOL, || json!({"info": info, "x1": x1, "line": pe_json(s), "stand-alone": pe_json(&r)}));
+                        let sig = if near_trivial(&r) != near_trivial(s) { collapse_sig(&r, s, "bubble line vs stand-alone") } else { "pcsaft-hc|bubble line".to_string() };
+                        m.check("diagram:bubble line point equals stand-alone bubble point", &sig, case + 100 + k as u64, pe_dev(s, &r), TOL, || json!({"info": info, "x1": x1, "line": pe_json(s), "stand-alone": pe_json(&r)}));
                     }
                 }
             }
@@ -339,7 +405,7 @@ fn diagrams(m: &mut Monitor, cfg: &Config) {
                         // only when the stand-alone solve found the same branch
                         let same_branch = (r.vapor().pressure(Contributions::Total) / s.vapor().pressure(Contributions::Total)).into_value();
                         if near_trivial(&r) != near_trivial(s) {
-                            m.check_bool("diagram:dew line point equals stand-alone dew point", "near-critical collapse|dew line vs stand-alone", case + 200 + k as u64, false, || json!({"info": info, "x1": x1, "line": pe_json(s), "stand-alone": pe_json(&r)}));
+                            m.check_bool("diagram:dew line point equals stand-alone dew point", &collapse_sig(&r, s, "dew line vs stand-alone"), case + 200 + k as u64, false, || json!({"info": info, "x1": x1, "line": pe_json(s), "stand-alone": pe_json(&r)}));
                         } else if (same_branch - 1.0).abs() < 1e-3 {
                             m.check("diagram:dew line point equals stand-alone dew point", "pcsaft-hc|dew line", case + 200 + k as u64, pe_dev(s, &r), 1e-6, || json!({"info": info, "x1": x1, "line": pe_json(s), "stand-alone": pe_json(&r)}));
                         } else {
